@@ -1441,7 +1441,8 @@ func (self *Analyzer) matchExpression(node pAst.MatchExpression) ast.AnalyzedMat
 		for _, lit := range arm.Literals {
 			if !lit.IsLiteral() {
 				defaultArmSpan = &arm.Range
-				action := self.expression(arm.Action)
+				// The action was analyzed above: analyzing it again would report its diagnostics twice
+				// and doubles the work with every nesting level of default arms.
 				defaultArm = &action
 				containsDefault = true
 			}
